@@ -201,6 +201,11 @@ pub struct World {
     /// the running check reports C07: the "collector idle after the unwind" probes are judged at the unwind itself.
     /// Other checks leave them to C07 and observe the consequences of a stuck flag through their own oracles instead.
     pub judge_idle_after_unwind: Cell<bool>,
+    /// the check that is running: its mode and the properties it reports (decide which oracle hits end a history)
+    pub run_mode: RefCell<String>,
+    pub run_props: RefCell<Vec<String>>,
+    /// set once an oracle hit that ends the history was recorded (own property, or memory may be corrupt)
+    pub stop_now: Cell<bool>,
 }
 
 impl World {
@@ -268,6 +273,9 @@ impl World {
             coll_explicit: Cell::new(false),
             cleaning: RefCell::new(Vec::with_capacity(16)),
             judge_idle_after_unwind: Cell::new(true),
+            run_mode: RefCell::new(String::new()),
+            run_props: RefCell::new(Vec::new()),
+            stop_now: Cell::new(false),
             feat_on: Cell::new(false),
             feats: RefCell::new(Vec::with_capacity(FEAT_CAP)),
         }
@@ -370,6 +378,42 @@ impl World {
     }
 }
 
+/// Which property an oracle hit is reported under, given the check that is running (DESIGN.md sections 3-4).
+pub fn attribute(v: &Viol, mode: &str) -> &'static str {
+    let base = v.prop;
+    match mode {
+        "C06" => {
+            if v.after_resurrection && !v.after_fault && matches!(base, "C01" | "C02") {
+                return "C06";
+            }
+            base
+        }
+        "C07" => {
+            if v.after_fault && matches!(base, "C01" | "C03" | "C05" | "C08" | "C07" | "C14") {
+                return "C07";
+            }
+            base
+        }
+        "C10" => {
+            if v.in_action && !v.after_fault && matches!(base, "C08" | "C01") {
+                return "C10";
+            }
+            base
+        }
+        "C14" => {
+            if v.after_fault && matches!(base, "C01" | "C03" | "C05" | "C08" | "C09" | "C07") {
+                return "C14";
+            }
+            if v.in_cyclic && matches!(base, "C08" | "C09") {
+                return "C14";
+            }
+            base
+        }
+        "C19" => "C19",
+        _ => base,
+    }
+}
+
 // ---------------------------------------------------------------------------------------------------------------
 // errors
 
@@ -420,24 +464,42 @@ impl World {
     /// Records an oracle hit. Never panics.
     pub fn err(&self, prop: &'static str, oracle: &'static str, sig: String, detail: String) {
         if let Ok(mut e) = self.errs.try_borrow_mut() {
-            if e.len() < 8 {
-                e.push(Viol {
-                    prop,
-                    oracle,
-                    sig,
-                    detail,
-                    after_fault: self.degraded.get() || self.fault_fired.get() > 0,
-                    after_resurrection: self.had_resurrection.get(),
-                    in_action: self.in_action(),
-                    in_cyclic: self.in_closure(),
-                    step: self.step.get(),
-                });
+            let v = Viol {
+                prop,
+                oracle,
+                sig,
+                detail,
+                after_fault: self.degraded.get() || self.fault_fired.get() > 0,
+                after_resurrection: self.had_resurrection.get(),
+                in_action: self.in_action(),
+                in_cyclic: self.in_closure(),
+                step: self.step.get(),
+            };
+            // A hit ends the history when it belongs to a property this check reports, or when the process state can no
+            // longer be trusted (memory-safety oracles). Hits of other properties are kept (reported as foreign) and the
+            // history goes on: the running check then sees what the same misbehaviour does in terms of its own property.
+            // (On a tree where every property holds there are no hits at all, so this changes nothing there.)
+            let own = {
+                let mode = self.run_mode.try_borrow().map(|m| m.clone()).unwrap_or_default();
+                let a = attribute(&v, &mode);
+                self.run_props.try_borrow().map(|p| p.is_empty() || p.iter().any(|x| x == a)).unwrap_or(true)
+            };
+            let fatal = matches!(prop, "C01" | "C03" | "C20") || matches!(oracle, "drop_of_uninit" | "drop_of_garbage") || oracle.contains("dead") || oracle.contains("damaged") || oracle.contains("panic");
+            if own || fatal {
+                self.stop_now.set(true);
             }
+            let foreign_same = !own && e.iter().filter(|x| x.oracle == oracle).count() >= 2;
+            if e.len() < 24 && !foreign_same {
+                e.push(v);
+            }
+        } else {
+            self.stop_now.set(true);
         }
     }
 
+    /// An oracle hit that ends the history has been recorded.
     pub fn failed(&self) -> bool {
-        self.errs.try_borrow().map(|e| !e.is_empty()).unwrap_or(true)
+        self.stop_now.get()
     }
 
     /// A problem of the harness itself (never a verdict about the crate).
